@@ -1,0 +1,8 @@
+//go:build !verif
+
+package redis
+
+import "sync"
+
+func verifYield(site string)                     {}
+func verifAwaitLock(mu *sync.Mutex, site string) {}
